@@ -341,11 +341,11 @@ def run_lines(cmd, lines, timeout=900, par=NPROC, env=None, cwd=None):
             ls = ls[:len(rest)]
             out += ls
             if len(ls) == len(rest):
-                if sanlog and rc != 0 and se and "Sanitizer" in se:      # report at exit (leaks): find the case
+                if sanlog and se and "Sanitizer" in se:      # report at exit (leaks) or from a child process: find the case
                     found = False
                     for cs in rest[:400]:
                         rc1, _, se1 = _run_once(cmd, [cs], timeout, e, cwd)
-                        if rc1 != 0 and se1 and "Sanitizer" in se1:
+                        if se1 and "Sanitizer" in se1:
                             san(cs, rc1, se1); found = True; break
                     if not found: san("<chunk of %d cases, not reproduced case by case>" % len(rest), rc, se)
                 break
